@@ -1,6 +1,7 @@
 // Package vsync stands in for package sync when repository code is compiled through the overlay.
 // Every acquiring operation is a schedule point of the virtual runtime; releases update the model
-// state without a point (a release is a left-mover).
+// state without a point (a release is a left-mover). See package vrt for the race-mode discipline
+// (//go:norace everywhere, no closures, no slice growth on shared state).
 package vsync
 
 import (
@@ -22,17 +23,24 @@ type Mutex struct {
 	rm    realMutex
 }
 
-func (m *Mutex) free() bool { return !m.held }
+type mutexFree Mutex
+
+//go:norace
+func (m *mutexFree) Enabled() bool { return !m.held }
 
 // Lock is a schedule point; enabled while the mutex is free.
+//
+//go:norace
 func (m *Mutex) Lock() {
-	vrt.Point("mutex.lock", m.free, m)
+	vrt.Point("mutex.lock", (*mutexFree)(m), m)
 	m.held = true
 	m.owner = vrt.Self()
 	m.rm.lock()
 }
 
 // TryLock is a schedule point that never blocks.
+//
+//go:norace
 func (m *Mutex) TryLock() bool {
 	vrt.Point("mutex.trylock", nil, m)
 	if m.held {
@@ -45,6 +53,8 @@ func (m *Mutex) TryLock() bool {
 }
 
 // Unlock releases the mutex (no schedule point).
+//
+//go:norace
 func (m *Mutex) Unlock() {
 	if vrt.Aborting() {
 		return
@@ -59,6 +69,8 @@ func (m *Mutex) Unlock() {
 }
 
 // Held reports the model state (for oracles in controller context).
+//
+//go:norace
 func (m *Mutex) Held() bool { return m.held }
 
 // RWMutex mirrors sync.RWMutex (writer preference is not modelled, which admits a superset of the
@@ -69,18 +81,26 @@ type RWMutex struct {
 	rm      realRWMutex
 }
 
-func (m *RWMutex) canW() bool { return !m.w && m.readers == 0 }
-func (m *RWMutex) canR() bool { return !m.w }
+type rwCanW RWMutex
+type rwCanR RWMutex
 
+//go:norace
+func (m *rwCanW) Enabled() bool { return !m.w && m.readers == 0 }
+
+//go:norace
+func (m *rwCanR) Enabled() bool { return !m.w }
+
+//go:norace
 func (m *RWMutex) Lock() {
-	vrt.Point("rwmutex.lock", m.canW, m)
+	vrt.Point("rwmutex.lock", (*rwCanW)(m), m)
 	m.w = true
 	m.rm.lock()
 }
 
+//go:norace
 func (m *RWMutex) TryLock() bool {
 	vrt.Point("rwmutex.trylock", nil, m)
-	if !m.canW() {
+	if m.w || m.readers != 0 {
 		return false
 	}
 	m.w = true
@@ -88,6 +108,7 @@ func (m *RWMutex) TryLock() bool {
 	return true
 }
 
+//go:norace
 func (m *RWMutex) Unlock() {
 	if vrt.Aborting() {
 		return
@@ -100,15 +121,17 @@ func (m *RWMutex) Unlock() {
 	vrt.Touch(m)
 }
 
+//go:norace
 func (m *RWMutex) RLock() {
-	vrt.Point("rwmutex.rlock", m.canR, m)
+	vrt.Point("rwmutex.rlock", (*rwCanR)(m), m)
 	m.readers++
 	m.rm.rlock()
 }
 
+//go:norace
 func (m *RWMutex) TryRLock() bool {
 	vrt.Point("rwmutex.tryrlock", nil, m)
-	if !m.canR() {
+	if m.w {
 		return false
 	}
 	m.readers++
@@ -116,6 +139,7 @@ func (m *RWMutex) TryRLock() bool {
 	return true
 }
 
+//go:norace
 func (m *RWMutex) RUnlock() {
 	if vrt.Aborting() {
 		return
@@ -130,19 +154,26 @@ func (m *RWMutex) RUnlock() {
 
 type rlocker RWMutex
 
-func (r *rlocker) Lock()   { (*RWMutex)(r).RLock() }
+//go:norace
+func (r *rlocker) Lock() { (*RWMutex)(r).RLock() }
+
+//go:norace
 func (r *rlocker) Unlock() { (*RWMutex)(r).RUnlock() }
 
 // RLocker mirrors (*sync.RWMutex).RLocker.
+//
+//go:norace
 func (m *RWMutex) RLocker() Locker { return (*rlocker)(m) }
 
-// Cond mirrors sync.Cond: no spurious wake-ups, Signal wakes the longest waiter.
+const maxWaiters = 32
+
+// Cond mirrors sync.Cond: no spurious wake-ups, Signal wakes the longest waiter. As with the real
+// sync.Cond, Signal/Broadcast by themselves order nothing for the race detector; the ordering
+// comes from L.
 type Cond struct {
 	L       Locker
-	waiters []*condWaiter
-	// Stats for oracles: number of waiters registered at each Signal/Broadcast.
-	Wakes []int
-	ra    vrt.RaceAddr
+	waiters [maxWaiters]*condWaiter
+	n       int
 }
 
 type condWaiter struct {
@@ -150,45 +181,42 @@ type condWaiter struct {
 	t        *vrt.Thread
 }
 
-func (w *condWaiter) ready() bool { return w.signaled }
+//go:norace
+func (w *condWaiter) Enabled() bool { return w.signaled }
 
 // NewCond mirrors sync.NewCond.
+//
+//go:norace
 func NewCond(l Locker) *Cond { return &Cond{L: l} }
 
 // Wait atomically registers the caller, releases L, parks until signalled and re-acquires L.
+//
+//go:norace
 func (c *Cond) Wait() {
 	if vrt.Aborting() {
 		vrt.Point("cond.wait", nil)
 	}
+	if c.n >= maxWaiters {
+		panic("vsync: too many condition waiters")
+	}
 	w := &condWaiter{t: vrt.Self()}
-	c.waiters = append(c.waiters, w)
+	c.waiters[c.n] = w
+	c.n++
 	vrt.Touch(c)
 	c.L.Unlock()
-	vrt.Point("cond.wait", w.ready, c)
-	c.ra.Acquire()
+	vrt.Point("cond.wait", w, c)
 	c.L.Lock()
 }
 
-// Signal is a schedule point; wakes the oldest waiter if any.
-func (c *Cond) Signal() {
-	vrt.Point("cond.signal", nil, c)
-	c.Wakes = append(c.Wakes, c.nWaiting())
-	c.ra.Release()
-	for i, w := range c.waiters {
-		if !w.signaled {
-			w.signaled = true
-			vrt.LogEvent("cond.wake", "signal", c.ids(w)...)
-			c.waiters = append(c.waiters[:i:i], c.waiters[i+1:]...)
-			return
-		}
+//go:norace
+func (c *Cond) logWake(kind string, only *condWaiter) {
+	if !vrt.EventsOn() {
+		return
 	}
-	vrt.LogEvent("cond.wake", "signal", 0)
-}
-
-// ids renders a wake event: [number woken, woken thread ids..., -1, registered-but-not-woken ids...].
-func (c *Cond) ids(only *condWaiter) []int {
+	// [number woken, woken thread ids..., -1, registered-but-not-woken ids...]
 	var woken, rest []int
-	for _, w := range c.waiters {
+	for i := 0; i < c.n; i++ {
+		w := c.waiters[i]
 		id := -1
 		if w.t != nil {
 			id = w.t.ID
@@ -201,25 +229,48 @@ func (c *Cond) ids(only *condWaiter) []int {
 	}
 	out := append([]int{len(woken)}, woken...)
 	out = append(out, -1)
-	return append(out, rest...)
+	out = append(out, rest...)
+	vrt.LogEvent("cond.wake", kind, out...)
+}
+
+// Signal is a schedule point; wakes the oldest waiter if any.
+//
+//go:norace
+func (c *Cond) Signal() {
+	vrt.Point("cond.signal", nil, c)
+	if c.n == 0 {
+		if vrt.EventsOn() {
+			vrt.LogEvent("cond.wake", "signal", 0)
+		}
+		return
+	}
+	w := c.waiters[0]
+	c.logWake("signal", w)
+	w.signaled = true
+	for i := 0; i+1 < c.n; i++ {
+		c.waiters[i] = c.waiters[i+1]
+	}
+	c.n--
+	c.waiters[c.n] = nil
 }
 
 // Broadcast is a schedule point; wakes every registered waiter.
+//
+//go:norace
 func (c *Cond) Broadcast() {
 	vrt.Point("cond.broadcast", nil, c)
-	c.Wakes = append(c.Wakes, c.nWaiting())
-	c.ra.Release()
-	vrt.LogEvent("cond.wake", "broadcast", c.ids(nil)...)
-	for _, w := range c.waiters {
-		w.signaled = true
+	c.logWake("broadcast", nil)
+	for i := 0; i < c.n; i++ {
+		c.waiters[i].signaled = true
+		c.waiters[i] = nil
 	}
-	c.waiters = nil
+	c.n = 0
 }
 
-func (c *Cond) nWaiting() int { return len(c.waiters) }
-
 // Waiting returns the number of registered waiters (for oracles).
-func (c *Cond) Waiting() int { return len(c.waiters) }
+//
+//go:norace
+func (c *Cond) Waiting() int { return c.n }
 
 // WaitGroup mirrors sync.WaitGroup.
 type WaitGroup struct {
@@ -227,8 +278,12 @@ type WaitGroup struct {
 	ra vrt.RaceAddr
 }
 
-func (wg *WaitGroup) zero() bool { return wg.n == 0 }
+type wgZero WaitGroup
 
+//go:norace
+func (wg *wgZero) Enabled() bool { return wg.n == 0 }
+
+//go:norace
 func (wg *WaitGroup) Add(delta int) {
 	if vrt.Aborting() {
 		return
@@ -243,6 +298,7 @@ func (wg *WaitGroup) Add(delta int) {
 	}
 }
 
+//go:norace
 func (wg *WaitGroup) Done() { wg.Add(-1) }
 
 // Go mirrors the newer (*sync.WaitGroup).Go.
@@ -254,8 +310,9 @@ func (wg *WaitGroup) Go(f func()) {
 	})
 }
 
+//go:norace
 func (wg *WaitGroup) Wait() {
-	vrt.Point("waitgroup.wait", wg.zero, wg)
+	vrt.Point("waitgroup.wait", (*wgZero)(wg), wg)
 	wg.ra.Acquire()
 }
 
@@ -266,25 +323,33 @@ type Once struct {
 	ra      vrt.RaceAddr
 }
 
-func (o *Once) notRunning() bool { return !o.running }
+type onceIdle Once
 
+//go:norace
+func (o *onceIdle) Enabled() bool { return !o.running }
+
+//go:norace
+func (o *Once) finish() {
+	o.done = true
+	o.running = false
+	vrt.Touch(o)
+	o.ra.Release()
+}
+
+//go:norace
 func (o *Once) Do(f func()) {
-	vrt.Point("once.do", o.notRunning, o)
+	vrt.Point("once.do", (*onceIdle)(o), o)
 	if o.done {
 		o.ra.Acquire()
 		return
 	}
 	o.running = true
-	defer func() {
-		o.done = true
-		o.running = false
-		vrt.Touch(o)
-		o.ra.Release()
-	}()
+	defer o.finish()
 	f()
 }
 
 // Map mirrors the commonly used part of sync.Map (each method is one atomic visible operation).
+// Not race-clean (uses a Go map); the repository does not use sync.Map.
 type Map struct {
 	m  map[any]any
 	ra vrt.RaceAddr
